@@ -325,3 +325,6 @@ func LedgerCheck(c *mon.Case) {
 func goschedYield() { runtime.Gosched() }
 
 func NewRand(seed int64) *rand.Rand { return rand.New(rand.NewSource(seed)) }
+
+// TLSConfigs is the documented name of TlsConfigs.
+func TLSConfigs() (*tls.Config, *tls.Config) { return TlsConfigs() }
